@@ -10,6 +10,7 @@
  *  VP_TRACE=<file>      append one line per traced call; VP_TRACE_READS=1 adds open/read/pread
  *  VP_FAIL=<glob>:<call>:<n>[+]:<errno>[;...]   fail the n-th (0-based) matching call (n+ : from n on)
  *                                               errno -1 on a pread: not a failure but a SHORT transfer (half of the bytes asked for)
+ *  VP_ROT=<glob>:<call>:<n>[;...]                after the n-th matching fsync one byte in the middle of that file silently changes on the medium
  *  VP_KILL=<k>:<before|after|torn>              SIGKILL self around the k-th state-changing call
  *  VP_SIGINT=<glob>:<call>:<n>                  raise SIGINT before the n-th matching call
  *  VP_PAUSE=<k>:<fifo>                          block before state-changing call k until fifo is written
@@ -61,6 +62,8 @@ static struct rule fail_rule[MAXRULE];
 static int fail_n;
 static struct rule sig_rule[MAXRULE];
 static int sig_n;
+static struct rule rot_rule[MAXRULE];
+static int rot_n;
 
 static long sc_index; /* state changing call counter */
 static long seq;
@@ -130,6 +133,8 @@ __attribute__((constructor)) static void vp_init(void)
 	if (e) parse_rules(e, fail_rule, &fail_n, 1);
 	e = getenv("VP_SIGINT");
 	if (e) parse_rules(e, sig_rule, &sig_n, 0);
+	e = getenv("VP_ROT");
+	if (e) parse_rules(e, rot_rule, &rot_n, 0);
 	e = getenv("VP_KILL");
 	if (e) {
 		vp_kill_k = atol(e);
@@ -225,6 +230,28 @@ static void check_sigint(const char* call, const char* path)
 		if (fnmatch(r->glob, path, 0) != 0) continue;
 		long c = __atomic_fetch_add(&r->count, 1, __ATOMIC_SEQ_CST);
 		if (c == r->n) raise(SIGINT);
+	}
+}
+
+/* silent corruption of what was just flushed: one byte in the middle of the file flips */
+static void check_rot(const char* call, const char* path)
+{
+	for (int i = 0; i < rot_n; ++i) {
+		struct rule* r = &rot_rule[i];
+		if (strcmp(r->call, call) != 0) continue;
+		if (fnmatch(r->glob, path, 0) != 0) continue;
+		long c = __atomic_fetch_add(&r->count, 1, __ATOMIC_SEQ_CST);
+		if (c != r->n) continue;
+		int f = REAL(open)(path, O_RDWR | O_CLOEXEC);
+		if (f < 0) continue;
+		struct stat st;
+		unsigned char b;
+		if (fstat(f, &st) == 0 && st.st_size > 0 && REAL(pread)(f, &b, 1, st.st_size / 2) == 1) {
+			b ^= 0x10;
+			REAL(pwrite)(f, &b, 1, st.st_size / 2);
+			trace("ROT", path, call, st.st_size / 2, 1, 1, 0, -1);
+		}
+		REAL(close)(f);
 	}
 }
 
@@ -500,6 +527,7 @@ ssize_t pwrite64(int fd, const void* buf, size_t size, off64_t off) { return do_
 	int se = errno; \
 	trace(NAME, p, 0, OFF, LEN, r, r != 0 ? se : 0, k); \
 	sc_after(NAME, p, k); \
+	if (r == 0 && rot_n) check_rot(NAME, p); \
 	errno = se; \
 	return r;
 
